@@ -142,6 +142,14 @@ func mergeToWriter(segments []*Segment, drops []*roaring.Bitmap,
 	} else {
 		dictLocs = make([]uint64, len(fieldsInv))
 
+		// still write the (empty) stored section, as the builder does for an
+		// empty batch, so that the file can be loaded back
+		err = newChunkedDocumentCoder(uint64(defaultDocumentChunkSize), cr).Write()
+		if err != nil {
+			return nil, nil, err
+		}
+		storedIndexOffset = uint64(cr.Count())
+
 		// nothing survives: every document of every segment is dropped
 		newDocNums = make([][]uint64, len(segments))
 		for segI, seg := range segments {
